@@ -103,7 +103,7 @@ pub fn gen_case2(prop: &str, tier: Tier, _seed: u64, idx: u64, r: &mut Rng) -> O
                     h.cfg.av1_seq = h.cfg.av1_seq.as_ref().map(|s| hostile_bytes(r, s)).or(Some(r.bytes(n)));
                 }
                 h.cfg.lang = if r.chance(1, 4) { Some("日本".into()) } else { None };
-                Case::Frag { h, side: Side { av1: side, vp9: None } }
+                Case::Frag { h, side: Side { av1: side, vp9: None, op: 0 } }
             }
             _ => {
                 let codec = r.below(4) as u8;
@@ -202,7 +202,7 @@ pub fn gen_case2(prop: &str, tier: Tier, _seed: u64, idx: u64, r: &mut Rng) -> O
                     o2.nonzero_start_pct = 0;
                     o2.hostile_pct = 0;
                     o2.audio_offset = false;
-                    Case::Hist { h: gen_history(r, &o2), side: Side { av1: None, vp9: Some(crate::model::vp9::gen_fields(r)) } }
+                    Case::Hist { h: gen_history(r, &o2), side: Side { av1: None, vp9: Some(crate::model::vp9::gen_fields(r)), op: 0 } }
                 }
             }
         }
@@ -242,7 +242,11 @@ pub fn gen_case2(prop: &str, tier: Tier, _seed: u64, idx: u64, r: &mut Rng) -> O
                 let o = FragOpts { max_ops: 10, hostile_cfg: false, ..Default::default() };
                 let (mut h, side) = gen_frag_history(r, &o);
                 h.ops.insert(0, FOp::Init);
-                Case::Frag { h, side: Side { av1: side, vp9: None } }
+                Case::Frag { h, side: Side { av1: side, vp9: None, op: 0 } }
+            } else if r.chance(1, 12) {
+                // very long recordings: the 64-bit (version 1) forms of mvhd / mdhd appear
+                let sc = *r.pick(&[1u64, 2, 3, 4, 10]);
+                return Some(c16_case(r, sc));
             } else {
                 let o = GenOpts { hostile_pct: 0, reorder_pct: 30, audio_pct: 65, meta_pct: 50, encode_pct: 0, consuming: false, max_video: 5, max_audio: 5, ..Default::default() };
                 let mut cfg = gen_cfg(r, &o);
@@ -427,7 +431,7 @@ fn c16_case(r: &mut Rng, idx: u64) -> Case {
                 }
             }
             h.ops.push(FOp::Flush);
-            return Case::Frag { h, side: Side { av1: side, vp9: None } };
+            return Case::Frag { h, side: Side { av1: side, vp9: None, op: 0 } };
         }
         _ => {
             // ordinary histories: the casts must all fit
